@@ -1,0 +1,15 @@
+//go:build verif
+
+package rhp
+
+// Verification hooks for the binary codecs (properties C11/C10 of the /verif
+// framework). This file only re-exports unexported types; it adds no
+// behaviour and is compiled only with `-tags verif`.
+
+// VerifNewRPCResponse returns an rpcResponse wrapping err or data.
+func VerifNewRPCResponse(err *RPCError, data ProtocolObject) ProtocolObject {
+	return &rpcResponse{err, data}
+}
+
+// VerifRPCResponseErr returns the error of an rpcResponse.
+func VerifRPCResponseErr(o ProtocolObject) *RPCError { return o.(*rpcResponse).err }
